@@ -595,6 +595,9 @@ def plan(tier, seed):
         specs.append(dict(name="iocb-%d" % i, kind="io", n=600 if tier == "quick" else 20000))
     specs.append(dict(name="wrap", kind="wrap", tier=tier))
     specs.append(dict(name="twins", kind="twins"))
+    # once more with the library's debug tracing switched on
+    specs.append(dict(name="tracing-histories", kind="hist", n=150 if tier == "quick" else 3000, tracing=True))
+    specs.append(dict(name="tracing-iocb", kind="io", n=100 if tier == "quick" else 3000, tracing=True))
     return specs
 
 
